@@ -12,7 +12,7 @@ from ....context.render_context import RenderContext
 from ....core.utils import NameSanitizer
 from ....core.writers.code_writer import CodeWriter
 from ....ir import IROperation
-from .endpoint_method_generator import EndpointMethodGenerator
+from .endpoint_method_generator import EndpointMethodGenerator, returns_async_iterator
 
 
 class MockGenerator:
@@ -95,9 +95,8 @@ class MockGenerator:
                     sig_stripped = lines[temp_i].strip()
                     signature_lines.append(sig_stripped)
                     if sig_stripped.endswith(":") and not sig_stripped.endswith(","):
-                        # Check if AsyncIterator in return type
-                        full_sig = " ".join(signature_lines)
-                        is_async_generator = "AsyncIterator" in full_sig
+                        # Check if the return type is AsyncIterator[...]
+                        is_async_generator = returns_async_iterator(sig_stripped)
                         break
                     temp_i += 1
 
